@@ -634,6 +634,8 @@ class Intrinsics:
         for a in args:
             if isinstance(a, containers.SymKey):   # containers
                 zs.append(a.term)
+            elif isinstance(a, SObj):   # containers: identity of a named input object
+                zs.append(containers.obj_key(a))
             elif is_boollike(a):
                 zs.append(as_z3bool(a))
             else:
@@ -654,6 +656,15 @@ class Intrinsics:
 
     def s_forall_keys(self, P, kname, fn):
         return containers.forall_keys(P, kname, fn)
+
+    def s_forall_ints(self, P, fn):
+        return containers.forall_ints(P, fn)
+
+    def s_seq_at(self, P, seq, i):
+        return containers.seq_at(P, seq, i)
+
+    def s_seq_len(self, P, seq):
+        return containers.seq_len(P, seq)
 
     def s_implies(self, P, a, b):
         a, b = P.truthy(a), P.truthy(b)
